@@ -312,6 +312,7 @@ def incEntries (S : Static) (out : AL Name OutFile) : List Name → Option (List
     | _, _ => none
 
 def regularMode : Nat := 420   -- 0644 under umask 022
+def symlinkMode : Nat := 134218239   -- uint32(fs.ModeSymlink | 0777)
 
 /-- remove stale outputs (a non-empty directory stays) -/
 def clearOut (out : AL Name OutFile) (o : Name) : AL Name OutFile :=
@@ -520,6 +521,8 @@ inductive Op where
   | outChmod (o : Name) (mode : Nat)
   | outObstruct (o : Name)                 -- a non-empty directory in its place; the file is kept aside
   | outRestore (o : Name)                  -- put the kept file back, byte for byte with its lstat fields
+  | outLink (o : Name) (target : String)   -- a (dangling) symlink at the output path (fresh mtime)
+  | cacheExpire                            -- the clock passes the expiry: every record is expired
   | build (always : Bool) (ts : List Name)
 
 def World.apply (w : World) (cfg : Cfg) : Op → World
@@ -537,7 +540,10 @@ def World.apply (w : World) (cfg : Cfg) : Op → World
   | .outCorrupt o size =>
     match w.out.get o with
     | some ⟨_, .dir⟩ => w
-    | some ⟨st, _⟩ => { w with out := w.out.put o ⟨⟨size, w.tick, st.mode, ""⟩, .junk⟩, tick := w.tick + 1 }
+    | some ⟨st, _⟩ =>
+      -- a symlink is replaced by a regular file, otherwise the permission bits stay
+      { w with out := w.out.put o ⟨⟨size, w.tick, if st.mode = symlinkMode then regularMode else st.mode, ""⟩, .junk⟩,
+               tick := w.tick + 1 }
     | none => { w with out := w.out.put o ⟨⟨size, w.tick, regularMode, ""⟩, .junk⟩, tick := w.tick + 1 }
   | .outChmod o mode =>
     match w.out.get o with
@@ -556,6 +562,14 @@ def World.apply (w : World) (cfg : Cfg) : Op → World
       | some f => { w with out := w.out.put o f, saved := w.saved.del o }
       | none => { w with out := w.out.del o }
     | _ => w
+  | .outLink o target =>
+    match w.out.get o with
+    | some ⟨_, .dir⟩ => w
+    | _ => { w with out := w.out.put o ⟨⟨target.length, w.tick, symlinkMode, target⟩, .junk⟩, tick := w.tick + 1 }
+  | .cacheExpire =>
+    -- `get` answers "not found" for an expired record, `remove` deletes it and `put` replaces it
+    -- (obligations gen_put_replaces / gen_remove_unconditional), so an expired record is an absent one
+    { w with cache := [] }
   | .build always ts => (w.build cfg always ts).world
 
 end PubModel.C10
